@@ -1062,7 +1062,186 @@ def _address_rule():
     return rule_address
 
 
+# sites where non-emptiness follows from something this rule does not read; one line of reason each
+EMPTYUNWRAP_TABLE = {
+    ("partition", "right", "pop"): "the points handed to partition are non-empty (build rejects an empty batch, leaves stop the recursion) and `left` is empty in this branch, so `right` holds all of them",
+}
+
+
+def rule_emptyunwrap(ctx):
+    """k ranges from 0: `heap.peek().unwrap()` (peek_mut / pop / first / last) panics on an empty container.  Each such
+    unwrap in linfa-nn needs evidence that the container is non-empty there: an emptiness / length test on the path (the
+    polarity of `if`, `&&` and `||` is followed), a range bounded by the container's own length, or a push that dominates
+    it.  A length test against a *variable* (`len >= k`, the else-branch of `len < k`) is such evidence only where that
+    variable is known to be positive - an earlier `k == 0` exit - otherwise the query with k = 0 panics instead of
+    returning no points."""
+    from .taint import parent_map
+    res = RuleResult("R-C07-emptyunwrap", "every unwrap of peek / peek_mut / pop / first / last on a container in linfa-nn is reached only where the container is non-empty, also for k = 0")
+    F = ctx.facts()
+    n = 0
+    TAKE = ("peek", "peek_mut", "pop", "first", "last", "first_mut", "last_mut", "pop_front", "pop_back", "front", "back")
+    for fn in F.all_fns():
+        d = fn["d"]
+        if d["krate"] != "linfa_nn" or fn.get("exp") or fn.get("body") is None or "tests" in (d.get("path") or "") or "test" in fn_file(fn).split("/")[-1]:
+            continue
+        c = fn["crate"]
+        r = Render(c)
+        pm = None
+        for y in walk(fn["body"]):
+            if not (y.get("k") == "MethodCall" and y["name"] in ("unwrap", "expect")):
+                continue
+            t = peel_refs(y["recv"])
+            if not (t.get("k") == "MethodCall" and t["name"] in TAKE):
+                continue
+            h = peel_refs(t["recv"])
+            if not (h.get("k") == "Path" and "local" in h):
+                continue
+            if pm is None:
+                pm = parent_map(fn["body"])
+            H = h["local"]
+            n += 1
+            key = fn_key(fn)
+            inst = "%s : `%s.%s().%s()`" % (key, h.get("name"), t["name"], y["name"])
+            res.instance(inst)
+
+            def is_len(e):
+                e = peel_refs(e)
+                return e.get("k") == "MethodCall" and e["name"] == "len" and peel_refs(e["recv"]).get("local") == H
+
+            def lit(e):
+                e = peel_refs(e)
+                if e.get("k") == "Lit" and e.get("lk") == "int":
+                    return int(e["v"])
+                return None
+
+            def facts_of(cond, holds):
+                """-> list of ('nonempty',) / ('ge', <expr>) facts about H that follow from cond == holds"""
+                cond = strip(cond)
+                while cond.get("k") == "Unary" and cond.get("op") == "!":
+                    cond, holds = strip(cond["e"]), not holds
+                if cond.get("k") == "Binary" and cond["op"] == "&&":
+                    return (facts_of(cond["l"], True) + facts_of(cond["r"], True)) if holds else []
+                if cond.get("k") == "Binary" and cond["op"] == "||":
+                    return (facts_of(cond["l"], False) + facts_of(cond["r"], False)) if not holds else []
+                if cond.get("k") == "MethodCall" and cond["name"] == "is_empty" and peel_refs(cond["recv"]).get("local") == H:
+                    return [("nonempty",)] if not holds else []
+                if cond.get("k") == "Binary" and cond["op"] in ("<", "<=", ">", ">=", "==", "!="):
+                    l, r_, op = cond["l"], cond["r"], cond["op"]
+                    if is_len(r_) and not is_len(l):
+                        l, r_ = r_, l
+                        op = {"<": ">", "<=": ">=", ">": "<", ">=": "<=", "==": "==", "!=": "!="}[op]
+                    if not is_len(l):
+                        return []
+                    if not holds:
+                        op = {"<": ">=", "<=": ">", ">": "<=", ">=": "<", "==": "!=", "!=": "=="}[op]
+                    v = lit(r_)
+                    if v is not None:
+                        if (op == ">" and v >= 0) or (op == ">=" and v >= 1) or (op == "!=" and v == 0) or (op == "==" and v >= 1):
+                            return [("nonempty",)]
+                        return []
+                    if op in (">=", "==", ">"):
+                        return [("nonempty",)] if op == ">" else [("ge", r_)]
+                return []
+
+            facts = []
+            child, a = y, pm.get(id(y))
+            bounded = False
+            while a is not None:
+                kk = a.get("k")
+                if kk == "If":
+                    if child is a.get("then"):
+                        facts += facts_of(a["c"], True)
+                    elif child is a.get("else"):
+                        facts += facts_of(a["c"], False)
+                elif kk == "Binary" and a["op"] in ("&&", "||") and child is a.get("r"):
+                    facts += facts_of(a["l"], a["op"] == "&&")
+                elif kk == "Closure":
+                    call = pm.get(id(a))
+                    if call is not None and call.get("k") == "MethodCall" and call["name"] in ("map", "for_each", "filter_map"):
+                        rng = peel_refs(call["recv"])
+                        if any(is_len(z) for z in walk(rng)) and any(z.get("k") in ("Range", "Struct") or (z.get("k") == "Call") for z in [rng]):
+                            bounded = True
+                elif kk == "Block":
+                    # a push onto H in an earlier statement of this block, with no pop in between
+                    pushed = False
+                    for st in a.get("stmts", []):
+                        if st is child or any(z is child for z in walk(st)):
+                            break
+                        for z in walk(st):
+                            if z.get("k") == "MethodCall" and peel_refs(z["recv"]).get("local") == H:
+                                if z["name"] in ("push", "push_back", "push_front", "insert"):
+                                    pushed = True
+                                elif z["name"] in ("pop", "clear", "truncate", "drain", "pop_front", "pop_back", "remove"):
+                                    pushed = False
+                    if pushed:
+                        facts.append(("nonempty",))
+                child, a = a, pm.get(id(a))
+            if bounded or ("nonempty",) in facts:
+                res.ok()
+                continue
+            ge = [f_[1] for f_ in facts if f_[0] == "ge"]
+            if ge:
+                # len >= K: K has to be positive here
+                K = peel_refs(ge[0])
+                kname = r.e(K)[:30]
+                positive = False
+                if K.get("k") == "Path" and "local" in K:
+                    KL = K["local"]
+
+                    def zero_test(cond, holds):
+                        """cond == holds implies K != 0"""
+                        cond = strip(cond)
+                        while cond.get("k") == "Unary" and cond.get("op") == "!":
+                            cond, holds = strip(cond["e"]), not holds
+                        if cond.get("k") == "Binary" and cond["op"] == "||" and not holds:
+                            return zero_test(cond["l"], False) or zero_test(cond["r"], False)
+                        if cond.get("k") == "Binary" and cond["op"] == "&&" and holds:
+                            return zero_test(cond["l"], True) or zero_test(cond["r"], True)
+                        if cond.get("k") == "Binary" and cond["op"] in ("==", "!=", ">", "<", ">=", "<="):
+                            l, r_ = peel_refs(cond["l"]), peel_refs(cond["r"])
+                            op = cond["op"]
+                            if r_.get("local") == KL and lit(l) is not None:
+                                l, r_ = r_, l
+                                op = {"<": ">", "<=": ">=", ">": "<", ">=": "<=", "==": "==", "!=": "!="}[op]
+                            if l.get("local") == KL and lit(r_) is not None:
+                                v = lit(r_)
+                                if not holds:
+                                    op = {"<": ">=", "<=": ">", ">": "<=", ">=": "<", "==": "!=", "!=": "=="}[op]
+                                return (op == "!=" and v == 0) or (op == ">" and v >= 0) or (op == ">=" and v >= 1)
+                        return False
+                    child, a = y, pm.get(id(y))
+                    while a is not None and not positive:
+                        if a.get("k") == "If":
+                            if child is a.get("then") and zero_test(a["c"], True):
+                                positive = True
+                            if child is a.get("else") and zero_test(a["c"], False):
+                                positive = True
+                        if a.get("k") == "Block":
+                            for st in a.get("stmts", []):
+                                if st is child or any(z is child for z in walk(st)):
+                                    break
+                                e_ = st.get("e") if st.get("k") == "Semi" else st
+                                e_ = strip(e_) if isinstance(e_, dict) else {}
+                                if e_.get("k") == "If" and not e_.get("else") and any(z.get("k") == "Ret" for z in walk(e_["then"])) and zero_test(e_["c"], False):
+                                    positive = True
+                        child, a = a, pm.get(id(a))
+                if positive:
+                    res.ok()
+                else:
+                    res.violate("%s : unwrap-on-empty-when-zero:%s.%s" % (key, h.get("name"), t["name"]), "`%s.%s().%s()` is reached where `%s.len()` is only known to be at least `%s`, and nothing on the path makes `%s` positive: with %s = 0 the container is empty and the query panics instead of returning no points" % (h.get("name"), t["name"], y["name"], h.get("name"), kname, kname, kname), fn_loc(fn, y.get("ln")))
+                continue
+            why = EMPTYUNWRAP_TABLE.get((d["name"], h.get("name"), t["name"]))
+            if why:
+                res.ok()
+                res.info.append("table: %s — %s" % (inst, why))
+            else:
+                res.undecided("%s : nonempty-not-established:%s.%s" % (key, h.get("name"), t["name"]), "no emptiness or length test, bounded range or dominating push was found on the path to `%s.%s().%s()` (fail closed)" % (h.get("name"), t["name"], y["name"]), fn_loc(fn, y.get("ln")))
+    if n < 3:
+        res.missing_anchor("unwraps of peek / pop / first / last in linfa-nn (found %d)" % n)
+    return res.finish(3)
+
+
 def rules(tier):
     from . import precision
-    return [_address_rule(), rule_unit, rule_sib, rule_edge, rule_degree, rule_memorder, rule_cover, rule_conserve, rule_staletop, rule_direct,
+    return [_address_rule(), rule_unit, rule_sib, rule_edge, rule_degree, rule_memorder, rule_cover, rule_conserve, rule_staletop, rule_emptyunwrap, rule_direct,
             precision.make_rule("R-C07-precision", lambda f: f["d"]["krate"] == "linfa_nn", 30, "linfa-nn"), rule_noint, rule_dispatch, rule_capacity, rule_convpair, rule_signedpower]
